@@ -71,6 +71,48 @@ def run(repo, res):
     if not starter_targets:
         res.note('no Thread(target=self.X) found: the background starter was removed; '
                  'lock-set rules are vacuous for the starter context')
+    # ---- the starter settles the launch before the process may end: a daemon thread is dropped at interpreter exit, in the
+    # middle of the handshake - the child it launched then waits for a client that never connects and nobody terminates it
+    import ast as _ast
+    nthreads = 0
+    for mname, m in sorted(methods.items()):
+        made = {}
+        for c in calls_in(m):
+            if unparse(c.func).split('.')[-1] != 'Thread':
+                continue
+            tgt = [unparse(k.value) for k in c.keywords if k.arg == 'target']
+            if not (tgt and tgt[0].startswith('self.') and tgt[0][5:] in starter_targets):
+                continue
+            nthreads += 1
+            dk = [k.value for k in c.keywords if k.arg == 'daemon']
+            daemon = bool(dk) and not (isinstance(dk[0], _ast.Constant) and dk[0].value in (False, None))
+            res.check('C16-R7', 'Environment.%s starter thread daemon' % mname, not daemon, 'supp/remote.py', c.lineno,
+                      'the background starter created in %s() is a daemon thread (daemon=%s): when the client program ends while the '
+                      'launch is in flight the interpreter drops the starter between launching the server and connecting to it - the '
+                      'server process is left in accept() for ever, neither connected (no end-of-file to end it) nor terminated'
+                      % (mname, unparse(dk[0]) if dk else ''),
+                      sample='the starter thread of %s() is not a daemon: interpreter exit waits until the launch is settled' % mname)
+        for n in _ast.walk(m):
+            tgt = None
+            if isinstance(n, _ast.Assign) and len(n.targets) == 1 and isinstance(n.targets[0], _ast.Attribute) \
+                    and n.targets[0].attr == 'daemon' and not (isinstance(n.value, _ast.Constant) and n.value.value in (False, None)):
+                tgt = unparse(n.targets[0].value)
+            elif isinstance(n, _ast.Call) and isinstance(n.func, _ast.Attribute) and n.func.attr == 'setDaemon' \
+                    and not (n.args and isinstance(n.args[0], _ast.Constant) and n.args[0].value in (False, None)):
+                tgt = unparse(n.func.value)
+            starters = set()
+            for a in _ast.walk(m):
+                if isinstance(a, _ast.Assign) and isinstance(a.value, _ast.Call) and unparse(a.value.func).split('.')[-1] == 'Thread' \
+                        and any(k.arg == 'target' and unparse(k.value).startswith('self.') and unparse(k.value)[5:] in starter_targets
+                                for k in a.value.keywords):
+                    starters.update(unparse(t) for t in a.targets)
+            if tgt is not None and tgt in starters:
+                res.check('C16-R7', 'Environment.%s marks %s a daemon' % (mname, tgt), False, 'supp/remote.py', n.lineno,
+                          '%s() makes the background starter %s a daemon thread: a '
+                          'daemon starter is dropped at interpreter exit in the middle of the handshake, leaving its server process '
+                          'waiting for ever' % (mname, tgt))
+    if starter_targets:
+        res.count('starter_threads', nthreads, floor=1)
     public = [n for n in methods if not n.startswith('_')]
 
     # interprocedural: (method, lock_held) reachable from each context root
